@@ -81,7 +81,7 @@ func guard(what string, f func()) error {
 			return fmt.Errorf("%s panicked: %v", what, p)
 		}
 		return nil
-	case <-time.After(guardTime):
+	case <-pbt.After(guardTime):
 		return fmt.Errorf("%s did not return within %v; tcell goroutines:\n%s", what, guardTime, tcellStacks())
 	}
 }
@@ -206,7 +206,7 @@ func prop(c Case) error {
 		select {
 		case ev := <-ch:
 			return ev, true
-		case <-time.After(d):
+		case <-pbt.After(d):
 			return nil, false
 		}
 	}
@@ -258,7 +258,7 @@ func prop(c Case) error {
 			}
 		}
 		// drain whatever is queued, then input and resize delivery must work again
-		deadline := time.Now().Add(5 * time.Second)
+		deadline := time.Now().Add(pbt.Scaled(5 * time.Second))
 		for s.HasPendingEvent() || tty.QueuedInput() > 0 {
 			if _, ok := pollOne(2 * time.Second); !ok || time.Now().After(deadline) {
 				break
@@ -428,7 +428,7 @@ func prop(c Case) error {
 	}
 	stop.Store(true)
 	// a poller on a suspended screen legitimately blocks: wake it
-	unblock := time.After(guardTime)
+	unblock := pbt.After(guardTime)
 	actorsDone := make(chan struct{})
 	go func() { wg.Wait(); close(actorsDone) }()
 wait:
@@ -458,7 +458,7 @@ wait:
 		}
 		// Fini (or quit) is the cancellation signal: the forwarding goroutine must
 		// leave even though its consumer has stopped receiving, and close the channel
-		deadline := time.Now().Add(5 * time.Second)
+		deadline := time.Now().Add(pbt.Scaled(5 * time.Second))
 		for channelEventsCount() > chanBaseline && time.Now().Before(deadline) {
 			time.Sleep(2 * time.Millisecond)
 		}
@@ -485,7 +485,7 @@ wait:
 		if hasChannel {
 			select {
 			case <-chanClosed:
-			case <-time.After(5 * time.Second):
+			case <-pbt.After(5 * time.Second):
 				return fmt.Errorf("after Fini: the ChannelEvents channel was not closed")
 			}
 		}
@@ -500,7 +500,7 @@ wait:
 		close(chanQuit)
 		select {
 		case <-chanClosed:
-		case <-time.After(5 * time.Second):
+		case <-pbt.After(5 * time.Second):
 			return fmt.Errorf("after quit: the ChannelEvents channel was not closed")
 		}
 	}
